@@ -4101,7 +4101,8 @@ func (p *Posix) CopyObject(ctx context.Context, input s3response.CopyObjectInput
 					return nil, fmt.Errorf("initialize hash reader: %w", err)
 				}
 
-				_, err = hashReader.Read(nil)
+				// read the whole object through the hash reader
+				_, err = io.Copy(io.Discard, hashReader)
 				if err != nil {
 					return nil, fmt.Errorf("read err: %w", err)
 				}
@@ -4145,6 +4146,16 @@ func (p *Posix) CopyObject(ctx context.Context, input s3response.CopyObjectInput
 			return nil, s3err.GetAPIError(s3err.ErrNoSuchKey)
 		}
 		version = backend.GetPtrFromString(string(vId))
+
+		// the REPLACE directive replaces all content headers: remove the
+		// ones the request does not supply (empty values are not stored)
+		for _, attr := range []string{contentTypeHdr, contentEncHdr, contentDispHdr,
+			contentLangHdr, cacheCtrlHdr, expiresHdr} {
+			err := p.meta.DeleteAttribute(dstBucket, dstObject, attr)
+			if err != nil && !errors.Is(err, meta.ErrNoSuchKey) {
+				return nil, fmt.Errorf("delete object metadata: %w", err)
+			}
+		}
 
 		// Store the provided object meta properties
 		err = p.storeObjectMetadata(nil, dstBucket, dstObject,
